@@ -35,12 +35,12 @@ CMP = {'__gt__': 'gt', '__ge__': 'ge', '__lt__': 'lt', '__le__': 'le', '__eq__':
 
 def run(ctx):
     ix = ctx.index
-    rule_a(ctx, ix)
-    rule_b(ctx, ix)
-    rule_c(ctx, ix)
-    rule_d(ctx, ix)
-    rule_e(ctx, ix)
-    rule_f(ctx, ix)
+    ctx.guard(rule_a, ctx, ix)
+    ctx.guard(rule_b, ctx, ix)
+    ctx.guard(rule_c, ctx, ix)
+    ctx.guard(rule_d, ctx, ix)
+    ctx.guard(rule_e, ctx, ix)
+    ctx.guard(rule_f, ctx, ix)
 
 
 def _ev(ix):
@@ -314,9 +314,19 @@ def rule_c(ctx, ix):
                 modevar = c.func.id
                 it_ok = _iter_is_whole_edit_subset(lp.iter, f)
                 mode_ok = _mode_var_ok(f, modevar)
-                ok = it_ok and mode_ok
+                # applied unconditionally, and nothing else is applied to (subset, new state)
+                from ..util import guard_chain as _gc
+                _pm = parent_map(f.node)
+                cond = [g for g, br in _gc(_pm, c, lp) if isinstance(g, (ast.If, ast.Try))]
+                others = [x for x in calls_in(lp) if x is not c and len(x.args) == 2 and unparse(x.args[0]) == tgt
+                          and unparse(x.args[1]) == f.params[1]]
+                ok = it_ok and mode_ok and not cond and not others
                 if not it_ok:
                     detail = 'the loop does not run over the whole edit-subset list: %s' % unparse(lp.iter)
+                elif cond or others:
+                    detail = ('the selected mode is applied only under a condition (%s) / another mode is applied instead (%s): for '
+                              'some edited subsets the stored state is not the documented combination'
+                              % ([unparse(g.test) for g in cond if isinstance(g, ast.If)], [unparse(x.func) for x in others]))
                 elif not mode_ok:
                     detail = 'the applied callable is not `override_mode or self.mode`'
     ctx.ob(R, f.construct, 'the mode is applied to every edited subset with the new state', ok, detail=detail, where=f.where)
